@@ -28,7 +28,9 @@ func checkC07(c *Ctx) {
 	c.Expect("C07-R1", 40)
 	c.Expect("C07-R2", 11)
 	c.Expect("C07-R2b", 5)
-	c.Expect("C07-R3", 1)
+	c.Expect("C07-R3", 4)
+	c.Rule("C07-R7", "%c writes exactly one byte, the low 8 bits of the popped integer (byte-addressed cursor strings rely on it for values of 128 and above)")
+	c.Expect("C07-R7", 1)
 	c.Expect("C07-R4", 4)
 	c.Expect("C07-R5", 5)
 	c.Expect("C07-R6", 49)
@@ -113,6 +115,8 @@ func checkC07(c *Ctx) {
 	}
 	// R3
 	c.Check(skipCmp['?'] && skipCmp[';'] && skipCmp['e'], "C07-R3", "skip-scanner:sees-openers", p.pos(fn.Pos()), fmt.Sprintf("bytes examined while skipping: %v", byteSet(skipCmp)))
+	c07SkipNesting(c, p, fn, dispatch)
+	c07CharOutput(c, p, fn, opCmp)
 	c07BinOps(c, p, fn, dispatch)
 	c07Stack(c, p)
 	c07Loops(c, p, fn, chOf)
@@ -693,4 +697,194 @@ func c07Data(c *Ctx, p *Prog, opCmp map[int64]*ssa.BinOp) {
 		}
 	}
 	c.extra["max_conditional_depth_in_data"] = maxDepth
+}
+
+// c07SkipNesting: while a conditional part is being skipped, a closer or an
+// else that belongs to a conditional nested inside the skipped part must not
+// end the skip.  Structure required: a nesting counter incremented on '?' in
+// every skipping mode, and every return to the emitting mode from the skipping
+// region is guarded by "counter is zero".
+func c07SkipNesting(c *Ctx, p *Prog, fn *ssa.Function, dispatch ssa.Value) {
+	// the mode variable: header phi named skip (as in the anchors of the property)
+	var skip *ssa.Phi
+	for _, b := range fn.Blocks {
+		for _, in := range b.Instrs {
+			if phi, ok := in.(*ssa.Phi); ok && phi.Comment == "skip" {
+				if skip == nil || len(phi.Edges) > len(skip.Edges) {
+					skip = phi
+				}
+			}
+		}
+	}
+	if skip == nil {
+		c.Undecided("C07-R3", "skip-scanner:mode", p.pos(fn.Pos()), "mode variable not found")
+		return
+	}
+	// all places where the constant `emit` (0) or another mode flows into the mode variable
+	type site struct{ pred, succ *ssa.BasicBlock }
+	var toEmit []site
+	modes := map[int64]bool{}
+	seen := map[*ssa.Phi]bool{}
+	var visit func(phi *ssa.Phi)
+	visit = func(phi *ssa.Phi) {
+		if seen[phi] {
+			return
+		}
+		seen[phi] = true
+		for i, e := range phi.Edges {
+			if k, ok := constInt(e); ok {
+				if k == 0 {
+					toEmit = append(toEmit, site{phi.Block().Preds[i], phi.Block()})
+				} else {
+					modes[k] = true
+				}
+			} else if ph, ok := e.(*ssa.Phi); ok {
+				visit(ph)
+			}
+		}
+	}
+	visit(skip)
+	inSkipRegion := func(as []Atom) bool {
+		for _, g := range as {
+			if g.L == "skip" && ((g.Op == "==" && g.R != "0") || (g.Op == "!=" && g.R == "0")) {
+				return true
+			}
+		}
+		return false
+	}
+	nExit, bad := 0, ""
+	for _, st := range toEmit {
+		as := guardsOnEdge(st.pred, st.succ)
+		if !inSkipRegion(as) {
+			continue
+		}
+		nExit++
+		ok := false
+		for _, g := range as {
+			if g.L == "nest" && ((g.Op == "<=" && g.R == "0") || (g.Op == "==" && g.R == "0") || (g.Op == "<" && g.R == "1")) {
+				ok = true
+			}
+		}
+		if !ok {
+			bad += fmt.Sprintf("the skip ends at %s without testing the nesting counter (guards: %v); ", p.pos(firstPos(st.pred)), as)
+		}
+	}
+	c.Check(bad == "" && nExit > 0, "C07-R3", "skip-scanner:exit-only-at-own-level", p.pos(fn.Pos()), fmt.Sprintf("%d return(s) to the emitting mode from the skipping region, each under `nest == 0` %s", nExit, bad))
+	// the counter is incremented on '?' in every skipping mode
+	var incs []*ssa.BinOp
+	eachInstr(fn, func(in ssa.Instruction) {
+		bo, ok := in.(*ssa.BinOp)
+		if !ok || bo.Op != token.ADD {
+			return
+		}
+		if k, ok := constInt(bo.Y); !ok || k != 1 {
+			return
+		}
+		if ph, ok := bo.X.(*ssa.Phi); !ok || ph.Comment != "nest" {
+			return
+		}
+		incs = append(incs, bo)
+	})
+	var ms []int64
+	for m := range modes {
+		ms = append(ms, m)
+	}
+	sort.Slice(ms, func(i, j int) bool { return ms[i] < ms[j] })
+	for _, m := range ms {
+		ok := false
+		for _, bo := range incs {
+			as := guardsAt(bo.Block())
+			sawOpener, compatible := false, inSkipRegion(as)
+			for _, g := range as {
+				if g.Op == "==" && g.R == fmt.Sprint(int64('?')) {
+					sawOpener = true
+				}
+				if g.L == "skip" {
+					if g.Op == "==" && g.R != "0" && g.R != fmt.Sprint(m) {
+						compatible = false
+					}
+					if g.Op == "!=" && g.R == fmt.Sprint(m) {
+						compatible = false
+					}
+				}
+			}
+			if sawOpener && compatible {
+				ok = true
+			}
+		}
+		c.Check(ok, "C07-R3", fmt.Sprintf("skip-scanner:mode#%d-counts-openers", m), p.pos(fn.Pos()), fmt.Sprintf("in skipping mode %d a nested %%? increments the nesting counter", m))
+	}
+	if len(ms) == 0 {
+		c.Undecided("C07-R3", "skip-scanner:modes", p.pos(fn.Pos()), "no skipping mode constant found")
+	}
+}
+
+// c07CharOutput: the %c handler pops an int and writes byte(v) through PutCh.
+func c07CharOutput(c *Ctx, p *Prog, fn *ssa.Function, opCmp map[int64]*ssa.BinOp) {
+	charOutputRule(c, p, fn, opCmp['c'], "C07-R7")
+}
+
+func charOutputRule(c *Ctx, p *Prog, fn *ssa.Function, bo *ssa.BinOp, rule string) {
+	if bo == nil {
+		// find the case for 'c': an equality test against 'c' whose true branch pops an int
+		eachInstr(fn, func(in ssa.Instruction) {
+			x, ok := in.(*ssa.BinOp)
+			if !ok || x.Op != token.EQL {
+				return
+			}
+			if k, ok := constInt(x.Y); !ok || k != 'c' {
+				return
+			}
+			for _, r := range referrers(x) {
+				if iff, ok := r.(*ssa.If); ok {
+					for _, in2 := range iff.Block().Succs[0].Instrs {
+						if cc := callCommon(in2); cc != nil && strings.HasSuffix(calleeName(cc), "stack).PopInt") {
+							// the operator dispatch is the value compared with the most constants
+							if bo == nil || len(referrers(x.X)) > len(referrers(bo.X)) {
+								bo = x
+							}
+						}
+					}
+				}
+			}
+		})
+	}
+	if bo == nil {
+		c.Undecided(rule, "op:%c:one-byte", p.pos(fn.Pos()), "no case for %c")
+		return
+	}
+	// the case block: true successor of the If on this comparison
+	var body *ssa.BasicBlock
+	for _, r := range referrers(bo) {
+		if iff, ok := r.(*ssa.If); ok {
+			body = iff.Block().Succs[0]
+		}
+	}
+	if body == nil {
+		c.Undecided(rule, "op:%c:one-byte", p.pos(bo.Pos()), "case body not found")
+		return
+	}
+	ok, detail := false, "no output in the case body"
+	for _, in := range body.Instrs {
+		cc := callCommon(in)
+		if cc == nil {
+			continue
+		}
+		n := calleeName(cc)
+		if strings.HasSuffix(n, "paramsBuffer).PutCh") && len(cc.Args) == 2 {
+			if cv, isCv := cc.Args[1].(*ssa.Convert); isCv {
+				if call := popIntResult(cv.X); call != nil {
+					if b, isB := cv.Type().Underlying().(*types.Basic); isB && (b.Kind() == types.Byte || b.Kind() == types.Uint8) {
+						ok, detail = true, "PutCh(byte(PopInt()))"
+						continue
+					}
+				}
+			}
+			detail = "PutCh argument is " + valName(cc.Args[1])
+		} else if strings.HasSuffix(n, "paramsBuffer).PutString") {
+			ok, detail = false, "%c writes a string ("+valName(cc.Args[1])+"): more than one byte for values of 128 and above"
+			break
+		}
+	}
+	c.Check(ok, rule, "op:%c:one-byte", p.pos(bo.Pos()), detail)
 }
